@@ -97,6 +97,18 @@ var c18Params = []c18ParamCfg{
 		}},
 }
 
+// c18MagnitudeParams: parameter values that do not fit the machine integer widths (the stored types are sdkmath.Int / LegacyDec).
+// Transactions are unaffordable at these prices, so these worlds are explored with block-level steps only (c18MagnitudeSteps).
+var c18MagnitudeParams = []c18ParamCfg{
+	{Name: "basefee=2^80+12345,mingasprice=0", BaseFee: new(big.Int).Add(new(big.Int).Lsh(big.NewInt(1), 80), big.NewInt(12345)), MinGasPrice: "0"},
+	{Name: "basefee=2^64,mingasprice=18446744073709551617.5", BaseFee: new(big.Int).Lsh(big.NewInt(1), 64), MinGasPrice: "18446744073709551617.5"},
+	{Name: "basefee=2^63,mingasprice=0", BaseFee: new(big.Int).Lsh(big.NewInt(1), 63), MinGasPrice: "0"},
+}
+
+func init() { c18Params = append(c18Params, c18MagnitudeParams...) }
+
+const c18FirstMagnitudeParam = 3
+
 // Steps of the history alphabet; every step is one block.
 const (
 	c18Empty        = "empty-block"           // base fee moves down
@@ -1000,6 +1012,14 @@ func c18Cases(thorough bool) []c18Case {
 		level = next
 	}
 	var cases []c18Case
+	// magnitude worlds: histories of empty blocks only (the base fee decays but stays beyond 64 bits), cpc flags off/on together
+	for p := c18FirstMagnitudeParam; p < len(c18Params); p++ {
+		for _, steps := range [][]string{nil, {c18Empty}, {c18Empty, c18Empty}} {
+			for _, both := range []bool{false, true} {
+				cases = append(cases, c18Case{Erc20: both, Staking: both, Params: p, Steps: steps})
+			}
+		}
+	}
 	for _, s := range seqs { // simplest first: shorter histories, then worlds
 		for p := 0; p < nParams; p++ {
 			for _, e := range []bool{false, true} {
@@ -1042,7 +1062,7 @@ func runC18(replay string) int {
 			dp := evmtypes.DefaultParams()
 			isDefaultEvm := gs.Params.String() == dp.String()
 			isDefaultFee := pc.BaseFee.String() == feemarkettypes.DefaultParams().BaseFee.String() && sdkmath.LegacyMustNewDecFromStr(pc.MinGasPrice).Equal(feemarkettypes.DefaultParams().MinGasPrice)
-			if (i > 0 && isDefaultEvm) || isDefaultFee {
+			if (i > 0 && i < c18FirstMagnitudeParam && isDefaultEvm) || isDefaultFee {
 				run.Fail(ev.Finding{Clause: "alphabet-sanity", Detail: fmt.Sprintf("parameter configuration %d (%s) equals the module defaults (evm: %v, feemarket: %v): a reset to defaults would go unnoticed", i, pc.Name, isDefaultEvm, isDefaultFee)})
 			}
 		}
@@ -1092,6 +1112,6 @@ func runC18(replay string) int {
 	for _, p := range c18Params[:nParams] {
 		pn = append(pn, p.Name)
 	}
-	run.Coverage["rule"] = fmt.Sprintf("every history of 0..%d steps (one block each, all orders, repetitions allowed) over the %d-step alphabet %v, in %d worlds = cpc genesis flags DeployErc20Native × DeployStakingContract × %d evm/fee-market parameter configurations %v; each history is executed on a fresh application (3M-gas blocks, 3 pre-installed contracts incl. one with a zero-valued slot and one with code but no storage), then exported, imported into a fresh application, and both chains run one more empty block; a state is (hash of the evm, feemarket, cpc and vauth stores, height) after the history", depth, len(c18Alphabet(run.Thorough())), c18Alphabet(run.Thorough()), 4*nParams, nParams, pn)
+	run.Coverage["rule"] = fmt.Sprintf("every history of 0..%d steps (one block each, all orders, repetitions allowed) over the %d-step alphabet %v, in %d worlds = cpc genesis flags DeployErc20Native × DeployStakingContract × %d evm/fee-market parameter configurations %v, plus histories of 0..2 empty blocks in 3 magnitude configurations (base fee 2^63, 2^64 with min gas price 2^64+1.5, 2^80+12345) × cpc flags {none, both}; each history is executed on a fresh application (3M-gas blocks, 3 pre-installed contracts incl. one with a zero-valued slot and one with code but no storage), then exported, imported into a fresh application, and both chains run one more empty block; a state is (hash of the evm, feemarket, cpc and vauth stores, height) after the history", depth, len(c18Alphabet(run.Thorough())), c18Alphabet(run.Thorough()), 4*nParams, nParams, pn)
 	return run.Finish()
 }
